@@ -719,6 +719,54 @@ def _fold_feeds(ctx, se, h):
     return elems
 
 
+def _loop_feeds(ctx, se, h):
+    """h is the digest / MAC state at the head of `for part in [a, b, c] { state.update(part) }`
+    (a loop over an array literal, by value or through iter()): returns (the parts in order,
+    the state before the loop), else None.  The loop must do nothing else to the state, feed on
+    every iteration, and have no exit but the end of the list."""
+    if se is None or not (h[0] == "phi" and len(h) == 5 and h[1] == se.fn and h[4] == ()):
+        return None
+    import cfg as _cfg
+    from rules import algos as _algos
+    head = h[2]
+    lps = [lp for lp in for_loops(ctx, se) if lp["next_bb"] == head]
+    if len(lps) != 1:
+        return None
+    lp = lps[0]
+    it = strip(lp["init"]) if lp["init"] is not None else ("?",)
+    while is_call(it) and (it[1] in IDENT_CALLS or it[1].endswith("into_iter") or it[1] in ("core::slice::<impl [T]>::iter", "std::iter::Iterator::copied", "std::iter::Iterator::cloned", "std::array::<impl [T; N]>::iter")) and len(it[2]) == 1:
+        it = strip(it[2][0])
+    if not (it[0] == "agg" and it[1] == "array"):
+        return None
+    if not (lp["resolved"] or "").startswith(("<std::array::IntoIter<", "<std::slice::Iter<", "<std::iter::Copied<", "<std::iter::Cloned<")):
+        return None
+    st = _algos.loop_state(se, head).get(h[3])
+    if st is None:
+        return None
+    init, step = st
+    step = strip(step)
+    if not (step[0] == "after" and is_call(step[1]) and step[1][1] in DIGEST_UPDATE + MAC_UPDATE and step[2] == 0 and strip(step[3]) == h):
+        return None
+    a = strip(step[1][2][1])
+    while a[0] in ("deref", "ref", "refv") or (is_call(a) and a[1] in IDENT_CALLS and len(a[2]) == 1):
+        a = strip(a[1] if a[0] in ("deref", "ref", "refv") else a[2][0])
+    if a != strip(lp["elem"]):
+        return None
+    body = se.body
+    loop = set()
+    for e in _cfg.back_edges(body):
+        if e[1] == head:
+            loop |= _cfg.natural_loop(body, e)
+    exits = {(b_, s_) for b_ in loop for s_ in body.succs(b_) if s_ not in loop and body.blocks[s_]["term"]["k"] != "unreachable"}
+    ub = step[1][3][1]
+    idom = _cfg.dominators(body)
+    if exits != {(lp["switch_bb"], lp["exit_bb"])} or not all(_cfg.dominates(idom, ub, t_) for t_, h_ in _cfg.back_edges(body) if h_ == head):
+        return None
+    ic = lp["init_call"]
+    elems = [canon(ctx, se, resolve_locals(se, ic[3][1], e)) for e in it[4]] if ic is not None and len(ic) > 3 else list(it[4])
+    return elems, init
+
+
 def parse_digest(ctx, se, t, depth=0):
     """SHA-1 / HMAC-SHA1 / MD5 transcript of a finalisation term, or None"""
     name = t[1]
@@ -750,6 +798,11 @@ def parse_digest(ctx, se, t, depth=0):
                 # parts.iter().fold(state, |st, part| st.chain_update(part)): the parts in order
                 inputs.extend(reversed(_fold_feeds(ctx, se, h)))
                 h = strip(h[2][1])
+            elif h[0] == "phi" and _loop_feeds(ctx, se, h) is not None:
+                # for part in [a, b, c] { state.update(part) }: the parts in order
+                parts_, h0_ = _loop_feeds(ctx, se, h)
+                inputs.extend(reversed(parts_))
+                h = canon(ctx, se, h0_)
             elif is_call(h) and h[1] == "<D as digest::Digest>::new_with_prefix" and len(h[2]) == 1:
                 # new_with_prefix(x) = new().chain_update(x)
                 inputs.append(h[2][0])
@@ -963,6 +1016,15 @@ def numnorm(t):
         inner = numnorm(t[2][0])
         if inner[0] == "int" and " for " in t[1]:
             return ("int", inner[1], t[1].split(" for ")[-1].split(">")[0])
+    if k == "call" and t[1] in UNWRAP and t[2] and is_call(strip(t[2][0])) and "TryFrom<" in strip(t[2][0])[1] and strip(t[2][0])[1].endswith("::try_from") and " for " in strip(t[2][0])[1] and len(strip(t[2][0])[2]) == 1:
+        # `uN::try_from(x).unwrap()` / `.expect(..)`: where it returns at all, x at the narrower type
+        tf = strip(t[2][0])
+        tgt = tf[1].split(" for ")[-1].split(">")[0]
+        if tgt in ("u8", "u16", "u32", "u64", "usize"):
+            inner = numnorm(tf[2][0])
+            if inner[0] == "int":
+                return ("int", inner[1], tgt)
+            return ("cast", "IntToInt", inner, tgt)
     if k == "binop":
         return ("binop", t[1], numnorm(t[2]), numnorm(t[3]))
     if k == "unop":
